@@ -486,6 +486,9 @@ package restful
 //@ modifies httpWriter.(*CompressingResponseWriter).compressor, headers, ghost $trace, ghost $g.held, ghost $g.ztarget, ghost $g.zclosed, ghost $g.accepted, ghost $g.lasterr, ghost $g.wcalls, ghost $g.wstatus, ghost $g.whcalls, ghost $g.own.closes
 //@ ensures lock-balance: servicesLock(c) == 0
 //@ signals lock-balance: servicesLock(c) == 0
+// C10/C13: no compressor is lost or kept: everything dispatch acquired has been released, on every exit
+//@ ensures [C10 C13] pool-balance: !isCRW(httpWriter) ==> ghostInt("own.acquired", currentCompressorProvider) - ghostIntAtEntry("own.acquired", currentCompressorProvider) == ghostInt("own.released", currentCompressorProvider) - ghostIntAtEntry("own.released", currentCompressorProvider)
+//@ signals [C10 C13] pool-balance: !isCRW(httpWriter) ==> ghostInt("own.acquired", currentCompressorProvider) - ghostIntAtEntry("own.acquired", currentCompressorProvider) == ghostInt("own.released", currentCompressorProvider) - ghostIntAtEntry("own.released", currentCompressorProvider)
 //@ signals contained: c.doNotRecover || lastCallee(calls(), c.recoverHandleFunc)
 // C07/C10: a compressing writer in use at exit has been closed exactly once by dispatch, on every exit
 //@ ensures closed: isCRW(writer) ==> ownCloses(writer.(*CompressingResponseWriter)) == ghostIntAtEntry("own.closes", writer.(*CompressingResponseWriter)) + 1
@@ -517,24 +520,28 @@ package restful
 // holds and makes the caller its holder; Release* takes an object the caller
 // holds. Neither blocks. (Proved for BoundedCachedCompressors, assumed for sync.Pool.)
 //@ func iface:CompressorProvider.AcquireGzipWriter
+//@ ghostinc own.acquired self
 //@ props C07 C10 C13
 //@ modifies ghost $g.held
 //@ ensures result != nil && heldBy(result) == 1 && old(heldBy(result)) == 0
 //@ nopanic
 
 //@ func iface:CompressorProvider.AcquireZlibWriter
+//@ ghostinc own.acquired self
 //@ props C07 C10 C13
 //@ modifies ghost $g.held
 //@ ensures result != nil && heldBy(result) == 1 && old(heldBy(result)) == 0
 //@ nopanic
 
 //@ func iface:CompressorProvider.AcquireGzipReader
+//@ ghostinc own.acquired self
 //@ props C13 C16
-//@ modifies ghost $g.held
-//@ ensures result != nil && heldBy(result) == 1 && old(heldBy(result)) == 0
+//@ modifies ghost $g.own.rheld
+//@ ensures result != nil && readerHeld(result) == 1 && old(readerHeld(result)) == 0
 //@ nopanic
 
 //@ func iface:CompressorProvider.ReleaseGzipWriter
+//@ ghostinc own.released self
 //@ props C07 C10 C13
 //@ requires held: heldBy(w) == 1
 //@ modifies ghost $g.held
@@ -542,6 +549,7 @@ package restful
 //@ nopanic
 
 //@ func iface:CompressorProvider.ReleaseZlibWriter
+//@ ghostinc own.released self
 //@ props C07 C10 C13
 //@ requires held: heldBy(w) == 1
 //@ modifies ghost $g.held
@@ -549,10 +557,11 @@ package restful
 //@ nopanic
 
 //@ func iface:CompressorProvider.ReleaseGzipReader
+//@ ghostinc own.released self
 //@ props C13 C16
-//@ requires held: heldBy(w) == 1
-//@ modifies ghost $g.held
-//@ ensures heldBy(w) == 0
+//@ requires held: readerHeld(w) == 1
+//@ modifies ghost $g.own.rheld
+//@ ensures readerHeld(w) == 0
 //@ nopanic
 
 //@ func ext:(*compress/gzip.Writer).Reset
@@ -642,11 +651,16 @@ package restful
 //@ loop 2 invariant array: fresh(previous) && sameStart(candidates, previous) && cap(candidates) == cap(previous) && len(candidates) <= it_i
 //@ loop 2 invariant sound: forall(0, len(candidates), func(j int) bool { return candOK(candidates[j], routes, httpRequest, 1) })
 //@ loop 2 invariant untouched: forall(len(candidates), len(previous), func(j int) bool { return candOK(previous[j], routes, httpRequest, 0) })
-// 405: collecting the allowed methods
+// 405: collecting the allowed methods (C17: exactly the methods of the candidates, each once)
+//@ callsite NewErrorWithHeader [C02 C17] allow-sound: arg0 == 405 ==> forall(0, len(allowed), func(i int) bool { return exists(0, len(previous), func(j int) bool { return previous[j].Method == allowed[i] }) })
+//@ callsite NewErrorWithHeader [C02 C17] allow-once: arg0 == 405 ==> forall(0, len(allowed), func(i int) bool { return forall(i+1, len(allowed), func(k int) bool { return allowed[i] != allowed[k] }) })
 //@ loop 3 invariant fresh: fresh(allowed)
 //@ loop 3 invariant previous: forall(0, len(previous), func(j int) bool { return ptrInto(previous[j], routes) })
+//@ loop 3 invariant sound: forall(0, len(allowed), func(i int) bool { return exists(0, it_i, func(j int) bool { return previous[j].Method == allowed[i] }) })
+//@ loop 3 invariant once: forall(0, len(allowed), func(i int) bool { return forall(i+1, len(allowed), func(k int) bool { return allowed[i] != allowed[k] }) })
 //@ loop 4 invariant fresh: fresh(allowed)
 //@ loop 4 invariant previous: forall(0, len(previous), func(j int) bool { return ptrInto(previous[j], routes) })
+//@ loop 4 invariant none: forall(0, it_i, func(i int) bool { return allowed[i] != candidate.Method })
 // content-type stage
 //@ loop 5 invariant array: fresh(previous) && sameStart(candidates, previous) && cap(candidates) == cap(previous) && len(candidates) <= it_i
 //@ loop 5 invariant sound: forall(0, len(candidates), func(j int) bool { return candOK(candidates[j], routes, httpRequest, 2) })
@@ -901,8 +915,8 @@ package restful
 
 //@ func (*BoundedCachedCompressors).ReleaseGzipReader
 //@ props C13
-//@ requires b != nil && heldBy(r) == 1
-//@ callsite chansend released: heldBy(arg0) == 1 && arg0 == r
+//@ requires b != nil && readerHeld(r) == 1
+//@ callsite chansend released: readerHeld(r) == 1 && arg0 == r
 //@ modifies nothing
 //@ nopanic
 
@@ -966,3 +980,83 @@ package restful
 //@ ensures closed: c.compressor == nil ==> result0 == -1 && result1 != nil && writeCalls(c.writer) == old(writeCalls(c.writer))
 //@ ensures open: c.compressor != nil ==> 0 <= result0 && result0 <= len(bytes) && (result1 == nil ==> result0 == len(bytes))
 //@ nopanic
+
+// ---------------------------------------------------------------------------
+// OPTIONS filter (C17)
+
+//@ func (*Container).OPTIONSFilter
+//@ props C17 C19
+//@ requires c != nil && corsContainerOK(c) && req != nil && req.Request != nil && req.Request.URL != nil && resp != nil && resp.ResponseWriter != nil && chainOK(chain)
+//@ requires distinct: !same(hdrOf(resp.ResponseWriter), req.Request.Header)
+//@ modifies chain.Index, cb(chain), cb(req), cb(resp), headers, ghost $trace
+// an OPTIONS request is answered by the filter itself: no later filter, no route function
+//@ ensures options: old(req.Request.Method) == "OPTIONS" ==> calls() == old(calls())
+// every other method passes through untouched
+//@ callsite (*FilterChain).ProcessFilter other: req.Request.Method != "OPTIONS" && arg0 == chain && arg1 == req && arg2 == resp && same(mapVal(hdrOf(resp.ResponseWriter)), old(mapVal(hdrOf(resp.ResponseWriter))))
+// Allow and Access-Control-Allow-Methods carry the same list: the methods computeAllowedMethods returns, joined by ","
+//@ callsite (Response).AddHeader allow: arg1 == "Allow" || arg1 == "Access-Control-Allow-Methods" ==> arg2 == methods
+
+// ---------------------------------------------------------------------------
+// C14: a trailing slash does not change the tokens of a path (default strategy)
+
+//@ lemma C14.trimleft-append
+//@ props C14
+//@ forall s string, n int
+//@ induction n general
+//@ requires len(s) == n && model_strings_TrimLeft(s, "/") != ""
+//@ ensures model_strings_TrimLeft(s+"/", "/") == model_strings_TrimLeft(s, "/") + "/"
+
+//@ lemma C14.trailing-slash
+//@ props C14
+//@ uses C14.trimleft-append
+//@ forall p string, k int
+//@ requires !strings.HasSuffix(p, "/") && model_strings_Trim(p, "/") != ""
+//@ ensures count: tokCount(p+"/") == tokCount(p)
+//@ ensures tokens: tokAt(p+"/", k) == tokAt(p, k)
+//@ opt opaque model_splitCount model_splitPart
+
+// ---------------------------------------------------------------------------
+// reading entities (C13, C16)
+
+//@ func ext:(*compress/gzip.Reader).Reset
+//@ props C13 C16
+//@ trusted A-CODEC: Reset binds the reader to a new source and forgets all earlier state; a malformed header is reported as an error
+//@ requires self != nil
+//@ modifies ghost $g.ztarget
+//@ ensures resetTarget(self) == r
+//@ nopanic
+
+//@ func ext:compress/zlib.NewReader
+//@ props C16
+//@ trusted A-CODEC: returns a reader or an error, never panics
+//@ ensures result1 == nil ==> result0 != nil
+//@ modifies nothing
+//@ nopanic
+
+//@ func iface:EntityReaderWriter.Read
+//@ props C16
+//@ trusted A-RT: a registered entity reader decodes the body into v and reports malformed input as an error (encoding/json, encoding/xml are dependencies)
+//@ requires req != nil
+//@ modifies headers
+//@ nopanic
+
+//@ func (*entityReaderWriters).accessorAt
+//@ props C05 C16
+//@ requires r != nil && r.protection != nil && ghostInt("lock.ptr", r.protection) >= 0 && registryOK(r)
+//@ ensures found: result1 ==> result0 != nil
+//@ ensures lock: ghostInt("lock.ptr", r.protection) == old(ghostInt("lock.ptr", r.protection))
+//@ modifies nothing
+//@ nopanic
+//@ loop 0 invariant true
+
+// package variable: the registry exists and holds no nil accessor
+//@ global invariant registry: entityAccessRegistry != nil && entityAccessRegistry.protection != nil && registryOK(entityAccessRegistry)
+
+//@ func (*Request).ReadEntity
+//@ props C13 C16
+//@ requires r != nil && r.Request != nil && ghostInt("lock.ptr", entityAccessRegistry.protection) >= 0
+//@ modifies r.Request.Body, headers, ghost $g.own.rheld, ghost $g.ztarget, ghost $g.own.acquired, ghost $g.own.released
+// the pooled reader is acquired at most once, Reset onto the body before any read, and released on every exit
+//@ ensures pool-balance: ghostInt("own.acquired", currentCompressorProvider) - ghostIntAtEntry("own.acquired", currentCompressorProvider) == ghostInt("own.released", currentCompressorProvider) - ghostIntAtEntry("own.released", currentCompressorProvider)
+//@ signals pool-balance: ghostInt("own.acquired", currentCompressorProvider) - ghostIntAtEntry("own.acquired", currentCompressorProvider) == ghostInt("own.released", currentCompressorProvider) - ghostIntAtEntry("own.released", currentCompressorProvider)
+//@ callsite iface:EntityReaderWriter.Read reset: old(r.Request.Header.Get("Content-Encoding")) == "gzip" ==> isGzipReaderOnBody(r, old(r.Request.Body))
